@@ -8,7 +8,11 @@ import (
 	"github.com/ethereum/go-ethereum/common"
 	"github.com/jackc/pgx/v4"
 
+	obskeyper "github.com/shutter-network/rolling-shutter/rolling-shutter/chainobserver/db/keyper"
+	corekeyperdatabase "github.com/shutter-network/rolling-shutter/rolling-shutter/keyper/database"
+	"github.com/shutter-network/rolling-shutter/rolling-shutter/keyper/epochkghandler"
 	"github.com/shutter-network/rolling-shutter/rolling-shutter/keyperimpl/gnosis/database"
+	"github.com/shutter-network/rolling-shutter/rolling-shutter/medley/broker"
 	"github.com/shutter-network/rolling-shutter/rolling-shutter/medley/identitypreimage"
 	"github.com/shutter-network/rolling-shutter/rolling-shutter/p2pmsg"
 	"github.com/shutter-network/rolling-shutter/rolling-shutter/shdb"
@@ -198,4 +202,87 @@ func vfKeysMsg(k int) *p2pmsg.DecryptionKeys {
 
 func vfGnosisExtra(m *p2pmsg.DecryptionKeys) *p2pmsg.GnosisDecryptionKeysExtra {
 	return m.Extra.(*p2pmsg.DecryptionKeys_Gnosis).Gnosis
+}
+
+// ---- the trigger for a slot is assembled from exactly these two pieces ----
+
+var vfTrig struct {
+	eonRow  corekeyperdatabase.Eon
+	set     *database.SetCurrentDecryptionTriggerParams
+	setCnt  int
+}
+
+//verif:stub (*github.com/shutter-network/rolling-shutter/rolling-shutter/keyper/database.Queries).GetEonForBlockNumber sql=getEonForBlockNumber
+func vfStubEonForBlock(q *corekeyperdatabase.Queries, ctx context.Context, block int64) (corekeyperdatabase.Eon, error) {
+	if vfBool("db.no-eon") {
+		return corekeyperdatabase.Eon{}, vfErr("no eon")
+	}
+	vfAssert(block == vfTrigBlock, "eon-looked-up-for-the-next-block")
+	return vfTrig.eonRow, nil
+}
+
+var vfTrigBlock int64
+
+//verif:stub (*github.com/shutter-network/rolling-shutter/rolling-shutter/keyperimpl/gnosis/database.Queries).SetCurrentDecryptionTrigger sql=setCurrentDecryptionTrigger
+func vfStubSetTrigger(q *database.Queries, ctx context.Context, arg database.SetCurrentDecryptionTriggerParams) error {
+	a := arg
+	vfTrig.set = &a
+	vfTrig.setCnt++
+	return nil
+}
+
+//verif:stub github.com/ethereum/go-ethereum/crypto.Keccak256
+func vfStubKeccak19(data ...[]byte) []byte {
+	acc := uint64(0)
+	for _, d := range data {
+		acc = vfUFU64("keccak-absorb", acc, d)
+	}
+	return vfUFBytesN("keccak-out", 32, acc)
+}
+
+func H_C19_trigger_decryption() {
+	k := vfLen("queue.rows", vfParam("rows", 2))
+	limit, minGas := vfU64("cfg.gaslimit"), vfU64("cfg.mingas")
+	vfAssume(minGas >= 1 && limit < 1<<60 && limit/minGas+1 <= 1<<31-1)
+	slot := vfU64("slot")
+	vfAssume(slot < 1<<62)
+	vfQ.rows = nil
+	for i := 0; i < k; i++ {
+		g := vfI64("row.gas")
+		vfAssume(g >= 0 && g < 1<<60)
+		vfQ.rows = append(vfQ.rows, database.TransactionSubmittedEvent{Index: vfI64("row.index"), Eon: vfI64("row.eon"),
+			IdentityPrefix: vfBytesN("row.prefix", 32), Sender: shdb.EncodeAddress(vfAny[common.Address]("row.sender")), GasLimit: g})
+	}
+	vfQ.ptrRow, vfQ.ptrErr = vfBool("ptr.row"), false
+	vfQ.ptr = database.TxPointer{Eon: vfI64("ptr.eon"), Value: vfI64("ptr.value"), Age: sql.NullInt64{Int64: vfI64("ptr.age"), Valid: vfBool("ptr.age-known")}}
+	vfQ.count = vfI64("queue.count")
+	maxAge := vfU64("cfg.maxage")
+	vfAssume(maxAge < 1<<62)
+	cfgIndex := vfI64("keyper-config-index")
+	vfTrig.eonRow = corekeyperdatabase.Eon{Eon: vfI64("eon"), KeyperConfigIndex: cfgIndex}
+	vfTrig.set, vfTrig.setCnt = nil, 0
+	vfTrigBlock = vfI64("next-block")
+	vfAssume(vfTrigBlock >= 0)
+	ch := make(chan *broker.Event[*epochkghandler.DecryptionTrigger], 1)
+	kpr := &Keyper{config: &Config{Gnosis: &GnosisConfig{EncryptedGasLimit: limit, MinGasPerTransaction: minGas, MaxTxPointerAge: maxAge}}, decryptionTriggerChannel: ch}
+	set := &obskeyper.KeyperSet{KeyperConfigIndex: cfgIndex} // the keyper set active at the next block is the eon's
+	err := kpr.triggerDecryption(context.Background(), slot, vfTrigBlock, set)
+	if err != nil {
+		vfAssert(vfChanLen(ch) == 0, "no-trigger-on-error")
+		vfReach("error")
+		return
+	}
+	readFrom := vfQ.indexSeen // where triggerDecryption read the queue from
+	// reference: the two verified pieces, evaluated on the same tables
+	wantPtr, perr := getTxPointer(context.Background(), nil, cfgIndex, int64(maxAge))
+	wantIDs, ierr := kpr.getDecryptionIdentityPreimages(context.Background(), slot, cfgIndex, wantPtr)
+	vfAssert(perr == nil && ierr == nil, "pieces-succeed-when-the-whole-does")
+	vfAssert(readFrom == wantPtr, "queue-read-from-the-pointer-getTxPointer-yields")
+	vfAssert(vfTrig.setCnt == 1 && vfTrig.set.Eon == cfgIndex && vfTrig.set.Slot == int64(slot) && vfTrig.set.TxPointer == wantPtr, "current-trigger-row-records-config-index-slot-and-pointer")
+	vfAssert(bytes.Equal(vfTrig.set.IdentitiesHash, computeIdentitiesHash(wantIDs)), "current-trigger-row-records-the-hash-of-the-requested-identities")
+	vfAssert(vfChanLen(ch) == 1, "exactly-one-trigger-event")
+	ev := <-ch
+	vfAssert(ev.Value.BlockNumber == uint64(vfTrigBlock), "trigger-is-for-the-next-block")
+	vfAssert(vfDeepEq(ev.Value.IdentityPreimages, wantIDs), "trigger-requests-the-slot-identity-and-the-selected-queue-prefix")
+	vfReach("triggered")
 }
